@@ -19,6 +19,7 @@
 #include <vector>
 
 #include "../engine/common/driver.h"
+#include "known.h"
 
 using dsched::Tracked;
 using vf::Chooser;
@@ -42,9 +43,14 @@ struct Block {
   bool freed;
   int free_op;
   // block table bookkeeping
-  bool published;          // became the current table (its creator retired the previous one)
-  uint64_t superseded_step;  // step at which a later table replaced it (0 = still current / never published)
+  // Learned from the retire-list node that designates the table (node->data), never from the order of events:
+  bool retired;              // some growing call handed this table to the retire list
+  uint64_t superseded_step;  // a step at which the table was certainly still current and after which the superseding call's CAS came
   int superseded_by;         // op index of the growth that replaced it
+  // retire-list node bookkeeping
+  bool is_node;
+  bool node_resolved;
+  uint64_t node_pre_cas_step;
   // element slots (element blocks only)
   uint8_t* slot;  // per element: bit0 constructed, bit1 destroyed, bit2 seen by the harness
   size_t nslots;
@@ -158,6 +164,7 @@ struct OpRec {
   bool allocated = false;  // entered the growth path (allocated a block table)
   int table_block = -1;    // registry index of that table
   bool lost_cas = false;
+  uint64_t pre_cas_step = 0;  // step of the last harness hook (table allocation / element constructor) of this call
   bool in_retire = false;  // past its growth CAS, inside RetireList::retire
   bool stalled = false;    // (VF_ALLOW_KNOWN only) the clock leapt while this call sat inside retire
 };
@@ -181,7 +188,7 @@ struct World {
   bool dying = false;
   size_t block_size = 1;
   const Elem* addr_of[MAX_INDEX];
-  int current_table = -1;  // registry index of the table the harness believes current (-1: the static empty table)
+  const uintptr_t* block_table_word = nullptr;  // where the vector keeps its current block table pointer (validated; may stay null)
   std::vector<SnapRec> all_snaps;  // every snapshot ever taken
   // per fill/copy/for_each call: addresses visited, in order
   std::vector<const Elem*>* collect[dsched::MAXT] = {};
@@ -205,8 +212,7 @@ struct HarnessScope {  // harness code running inside a vector call (callbacks):
 bool known_stale_retire_timestamp() {
   static int v = -1;
   if (v < 0) {
-    const char* e = getenv("VF_ALLOW_KNOWN");
-    v = (e && (e[0] == '1' || strstr(e, "c04stall"))) ? 0 : 1;
+    v = vf_allow_known("c04stall") ? 0 : 1;
   }
   return v == 1;
 }
@@ -223,8 +229,23 @@ int64_t usable_until(uint64_t taken_step) {
   return limit;
 }
 
+void resolve_nodes();
+// With stale reads an acquire load may legally return a table that was superseded a moment ago: such a snapshot is as
+// good as one taken while the superseding call was preparing its CAS, not better.
+uint64_t effective_taken_step(const SnapRec& s) {
+  Block* x = find_block_at(s.table);
+  if (x && x->retired && x->superseded_step < s.taken_step) return x->superseded_step;
+  return s.taken_step;
+}
 void on_tracked_alloc(Block& b) {
   if (!W) return;
+  {
+    // (the block being registered is the last one: hide it while older nodes are resolved)
+    int saved = g_nblocks;
+    g_nblocks = (int)(&b - g_blocks);
+    resolve_nodes();
+    g_nblocks = saved;
+  }
   int t = cur_tid();
   b.alloc_tid = t;
   if (!W->in_vec[t]) return;
@@ -237,23 +258,37 @@ void on_tracked_alloc(Block& b) {
       op.allocated = true;
       op.table_block = idx;
       b.is_table = true;
+      op.pre_cas_step = dsched::step();
     } else {
       b.nslots = b.size / sizeof(Elem);
       b.slot = (uint8_t*)calloc(b.nslots ? b.nslots : 1, 1);
     }
-  } else if (op.allocated && op.kind != O_DESTROY) {
-    // the retire-list node: allocated right after the growth CAS succeeded. The table this call created is
-    // current from now on, the previous one is superseded (retired) now.
-    Block& nt = g_blocks[op.table_block];
-    if (!nt.published) {
-      nt.published = true;
-      if (W->current_table >= 0) {
-        g_blocks[W->current_table].superseded_step = dsched::step() + 1;
-        g_blocks[W->current_table].superseded_by = b.alloc_op;
-      }
-      W->current_table = op.table_block;
-      op.in_retire = true;
-    }
+  } else if (op.allocated && op.kind != O_DESTROY && b.size == 2 * sizeof(void*)) {
+    // The retire-list node {data, next}: allocated by retire() after this call's growth CAS succeeded. Other threads
+    // may have run between that CAS and this allocation, so nothing is concluded from the order of such events;
+    // which table the call superseded is read from node->data once retire() has written it (resolve_nodes).
+    b.is_node = true;
+    b.node_pre_cas_step = op.pre_cas_step;
+    op.in_retire = true;
+  }
+}
+
+// node->data is written right after the allocation returns, before the next schedule point of that thread: every
+// node except one being allocated right now can be read. The superseding call's expected table was current from
+// before the call's last element constructor (it was loaded before the speculative blocks were built) until its CAS.
+void resolve_nodes() {
+  for (int i = 0; i < g_nblocks; i++) {
+    Block& n = g_blocks[i];
+    if (!n.is_node || n.node_resolved || n.freed) continue;
+    n.node_resolved = true;
+    uintptr_t data;
+    memcpy(&data, (const void*)n.lo, sizeof data);
+    Block* x = find_block_at(data);
+    if (!x || !x->is_table) continue;  // the static empty table
+    if (x->retired) dsched::fail("double-free", "block table %p handed to the retire list twice (by op%d and op%d)", (void*)x->lo, x->superseded_by, n.alloc_op);
+    x->retired = true;
+    x->superseded_by = n.alloc_op;
+    x->superseded_step = n.node_pre_cas_step;
   }
 }
 
@@ -266,37 +301,41 @@ void on_tracked_free(Block& b, size_t sized) {
   OpRec& op = W->ops[(size_t)opi];
   if (sized && b.align >= 64 && sized != b.size)
     dsched::fail("allocator", "sized delete of %zu bytes for a block allocated with %zu bytes", sized, b.size);
+  resolve_nodes();
   if (b.is_table) {
     if (op.kind == O_DESTROY || op.kind == O_UNSAFE_GC) return;  // end of life / documented as not thread safe
-    if (opi == b.alloc_op && !b.published) {
+    if (opi == b.alloc_op && !b.retired) {
       // the loser of the growth race gives its own, never published table back
       op.lost_cas = true;
       return;
     }
     W->expired_tables++;
     int64_t now = dsched::now_ns();
+    if (W->block_table_word && *W->block_table_word == b.lo)
+      dsched::fail("cooling-period", "block table %p freed by op%d (%s) while it is the current table", (void*)b.lo, opi, op_name[op.kind]);
+    if (!b.retired)
+      dsched::fail("cooling-period", "block table %p freed by op%d (%s) although no growing call retired it", (void*)b.lo, opi, op_name[op.kind]);
     // (a) any snapshot ever taken of this table
     for (auto& s : W->all_snaps)
       if (s.table == b.lo) {
-        int64_t lim = usable_until(s.taken_step);
+        uint64_t eff = effective_taken_step(s);
+        int64_t lim = usable_until(eff);
         if (now < lim)
           dsched::fail("cooling-period",
                        "block table %p freed by op%d (%s, T%d) at t=%.3fs, but a snapshot of it taken at step %lu is usable until t=%.3fs "
-                       "(64 s after the earliest growth that ended after the snapshot)",
-                       (void*)b.lo, opi, op_name[op.kind], op.thread, now / 1e9, (unsigned long)s.taken_step, lim / 1e9);
+                       "(64 s after the begin of the earliest growth that ended after the snapshot)",
+                       (void*)b.lo, opi, op_name[op.kind], op.thread, now / 1e9, (unsigned long)eff, lim / 1e9);
       }
-    // (b) the snapshot somebody could have taken just before the table was superseded
-    if (b.published) {
-      if (b.superseded_step == 0)
-        dsched::fail("cooling-period", "block table %p freed by op%d (%s) while it is still the current table", (void*)b.lo, opi, op_name[op.kind]);
-      int64_t lim = usable_until(b.superseded_step - 1);
+    // (b) the snapshot somebody could have taken while the superseding call was preparing its CAS
+    {
+      int64_t lim = usable_until(b.superseded_step);
       if (now < lim)
         dsched::fail("cooling-period",
-                     "block table %p freed by op%d (%s, T%d) at t=%.3fs; it was superseded at step %lu and a snapshot taken just before "
-                     "stays usable until t=%.3fs",
-                     (void*)b.lo, opi, op_name[op.kind], op.thread, now / 1e9, (unsigned long)b.superseded_step, lim / 1e9);
-      // literal reading of the property (not the conservative Pre): 64 s after the growth that superseded it.
-      // Differs from the check above only when another growing call was stalled inside retire() meanwhile.
+                     "block table %p freed by op%d (%s, T%d) at t=%.3fs; it was still current at step %lu (superseded by op%d) and a snapshot "
+                     "taken then stays usable until t=%.3fs",
+                     (void*)b.lo, opi, op_name[op.kind], op.thread, now / 1e9, (unsigned long)b.superseded_step, b.superseded_by, lim / 1e9);
+      // (c) 64 s measured from the begin of the growth that superseded it. Differs from (b) only when another growing
+      // call was stalled inside retire() meanwhile (generated only with the known_stale_retire_timestamp guard lifted).
       int64_t lit = W->ops[(size_t)b.superseded_by].begin_time + COOLING_NS;
       if (!known_stale_retire_timestamp() && now < lit) {
         char dump[1500];
@@ -343,6 +382,8 @@ Elem::Elem() {
   a.set(0x1111, "elem.a");
   dsched::point();
   b.set(0x2222, "elem.b");
+  if (Block* blk = owning_block(this))
+    if (blk->alloc_op >= 0) W->ops[(size_t)blk->alloc_op].pre_cas_step = dsched::step();
 }
 Elem::~Elem() {
   if (Block* blk = owning_block(this)) {
@@ -410,6 +451,7 @@ struct Call {
     r.begin_time = dsched::now_ns();
     w.ops.push_back(r);
     w.cur_op[t] = idx;
+    resolve_nodes();
     w.in_vec[t] = true;
     w.in_call[t] = true;
     w.inflight++;
@@ -418,6 +460,7 @@ struct Call {
     World& w = *W;
     w.in_vec[t] = false;
     w.in_call[t] = false;
+    resolve_nodes();
     w.inflight--;
     OpRec& r = w.ops[(size_t)idx];
     r.end_step = dsched::step();
@@ -471,12 +514,8 @@ struct Runner {
     // the table must be alive right now: we are about to read its size
     if (Block* b = find_block_at(r.table)) {
       if (b->freed) dsched::fail("use-after-free", "%s returned a snapshot of block table %p which is already freed", via, (void*)r.table);
-      // With stale reads the acquire load may legally return a table that was superseded a moment ago: such a
-      // snapshot is as good as one taken just before that growth, not better.
-      if (b->superseded_step && b->superseded_step - 1 < r.taken_step) {
-        r.taken_step = b->superseded_step - 1;
-        dsched::label("snapshot_of_superseded_table");
-      }
+      resolve_nodes();
+      if (b->retired && b->superseded_step < r.taken_step) dsched::label("snapshot_of_superseded_table");  // (see effective_taken_step)
     }
     r.size = s.size();
     if (r.size < min_size) dsched::fail("reserve", "%s: snapshot size %zu < requested %zu", via, r.size, min_size);
@@ -495,7 +534,10 @@ struct Runner {
   }
 
   // Pre for using a held snapshot now
-  bool snapshot_usable(const SnapRec& r) { return dsched::now_ns() < usable_until(r.taken_step); }
+  bool snapshot_usable(const SnapRec& r) {
+    resolve_nodes();
+    return dsched::now_ns() < usable_until(effective_taken_step(r));
+  }
 
   void run_op(int thread, const Op& op) {
     World& w = *W;
@@ -733,6 +775,19 @@ void run_with(Chooser& c, size_t hint, bool custom_ctor) {
   }
   r.bs = r.v->block_size();
   w.block_size = r.bs;
+  {
+    // {Meta, std::function, atomic<BlockTable*> _block_table, RetireList{atomic<uint64_t>}}: the current table pointer
+    // is the second last word. Only used for the "freed while current" check, and only if it looks right.
+    static_assert(sizeof(Vec) == 6 * sizeof(void*) || sizeof(Vec) == 7 * sizeof(void*), "ConcurrentVector layout changed");
+    const uintptr_t* word = (const uintptr_t*)((const char*)r.v + sizeof(Vec) - 2 * sizeof(void*));
+    uintptr_t p = *word;
+    if (p && p % alignof(size_t) == 0 && !find_block_containing(p)) {
+      size_t n;
+      memcpy(&n, (const void*)p, sizeof n);
+      if (n == 0) w.block_table_word = word;  // the static empty table
+    }
+    if (w.block_table_word) dsched::label("current_table_word_located");
+  }
 
   // optional single-threaded prologue
   int pre = (int)c.below(6);
